@@ -318,6 +318,23 @@ struct ListTarget
             { a_list *it, *at; A_LIST_FORSAFE_NEXT(it, at, ctx) { fw.push_back(id_of(it)); if (fw.size() > lim) break; } }
             { a_list *it, *at; A_LIST_FORSAFE_PREV(it, at, ctx) { bw.push_back(id_of(it)); if (bw.size() > lim) break; } }
             if (fw != M || bw != rev) { c.fail("iteration-wrong", "A_LIST_FORSAFE_NEXT", "upper-case forsafe forms do not yield the model sequence / its reverse"); break; }
+            { // the list argument of the macros may be any expression (here a conditional one), not only an identifier
+                a_list *const pick = (o.a[1] & 1) ? ctx : nullptr, *const other = ctx; // a pointer-typed condition: an unparenthesised macro parameter still compiles, and loops
+                fw.clear(); bw.clear();
+                c.site("a_list_foreach_next");
+                { a_list_foreach_next(it, pick ? ctx : other) { fw.push_back(id_of(it)); if (fw.size() > lim) break; } }
+                { a_list_foreach_prev(it, pick ? ctx : other) { bw.push_back(id_of(it)); if (bw.size() > lim) break; } }
+                if (fw != M || bw != rev) { c.fail("iteration-wrong", "a_list_foreach_next", "foreach macros with an expression as list argument do not yield the model sequence / its reverse"); break; }
+                fw.clear(); bw.clear();
+                { a_list *it, *at; A_LIST_FORSAFE_NEXT(it, at, pick ? ctx : other) { fw.push_back(id_of(it)); if (fw.size() > lim) break; } }
+                { a_list *it, *at; A_LIST_FORSAFE_PREV(it, at, pick ? ctx : other) { bw.push_back(id_of(it)); if (bw.size() > lim) break; } }
+                if (fw != M || bw != rev) { c.fail("iteration-wrong", "A_LIST_FORSAFE_NEXT", "forsafe macros with an expression as list argument do not yield the model sequence / its reverse"); break; }
+                fw.clear(); bw.clear();
+                { a_list *it; A_LIST_FOREACH_NEXT(it, pick ? ctx : other) { fw.push_back(id_of(it)); if (fw.size() > lim) break; } }
+                { a_list_forsafe_prev(it, at, pick ? ctx : other) { bw.push_back(id_of(it)); if (bw.size() > lim) break; } }
+                if (fw != M || bw != rev) { c.fail("iteration-wrong", "A_LIST_FOREACH_NEXT", "iteration macros with an expression as list argument do not yield the model sequence / its reverse"); break; }
+                c.st.add("probe.list_macros_with_expression_argument");
+            }
             break;
         }
         case L_FORSAFE_DELETE:
